@@ -178,6 +178,29 @@ func c04bind(args []string) {
 				"const":   cell(h.Eval(s, fmt.Sprintf("(%s%s%s)", fc, sp, as))),
 				"fwd":     cell(h.Eval(s, fmt.Sprintf("(%s-fwd%d)", ff, ci))),
 			}
+			if len(st.Calls[ci].Args) > 0 {
+				// the function called twice by mapcar over one list per argument (the second time with every integer
+				// 1000 higher): built-ins that call a function repeatedly may hand it the same argument buffer each time,
+				// what the first call bound (the &rest list above all) must not change when the second call is made
+				c := st.Calls[ci]
+				lists, shifted := make([]string, len(c.Args)), make([]string, len(c.Args))
+				for i, a := range c.Args {
+					shifted[i] = c04Render(a)
+					if a.K == "int" {
+						var n int
+						_ = json.Unmarshal(a.V, &n)
+						shifted[i] = fmt.Sprint(n + 1000)
+					}
+					lists[i] = fmt.Sprintf("(list %s %s)", c04Render(a), shifted[i])
+				}
+				o := h.Eval(s, fmt.Sprintf("(mapcar #'%s %s)", fl, strings.Join(lists, " ")))
+				first, second := o, o
+				if l, ok := o.Val.(slip.List); ok && o.OK() && len(l) == 2 {
+					first.Val, second.Val = l[0], l[1]
+				}
+				r["map2"], r["map2b"] = cell(first), cell(second)
+				r["direct2"] = cell(h.Eval(s, fmt.Sprintf("(%s %s)", fl, strings.Join(shifted, " "))))
+			}
 			if st.Prev != nil {
 				// a call site written before the redefinition and one compiled fresh inside a new function
 				r["old"] = cell(h.Eval(s, fmt.Sprintf("(%s-old%d)", fl, ci)))
